@@ -304,6 +304,11 @@ pub fn random_step(rng: &mut Rng, c: &mut Cli, padlens: &[usize]) -> Value {
             c.input(json!({"m":"setcs","v":v}), &b)
         }
         _ => {
+            if rng.chance(1, 4) {
+                let ty = *rng.pick(&[7u8, 16, 19, 22, 99, 255]);
+                let b = c.peer.encode(RtmpMessage::Unknown { type_id: ty, data: Bytes::from(vec![1u8, 2, 3]) }, ts, 0);
+                return c.input(json!({"m":"unknowntype","ty":ty}), &b);
+            }
             let (m, name) = match rng.below(3) {
                 0 => (cmd("onBWDone", 0.0, Amf0Value::Null, vec![Amf0Value::Number(8192.0)]), "unknowncmd"),
                 1 => (RtmpMessage::UserControl { event_type: UserControlEventType::StreamBegin, stream_id: Some(1), buffer_length: None, timestamp: None }, "userctl"),
